@@ -918,15 +918,20 @@ impl Indexable for ast::SimpleValue {
             }
             ast::SimpleValue::BangOperator(bang_operator) => bang_operator.index(ctx),
             ast::SimpleValue::CondOperator(cond_operator) => {
+                // the clause values have a common type: take the first one that is known
+                let mut typ = None;
                 for clause in cond_operator.clauses() {
                     if let Some(condition) = clause.condition() {
                         condition.index(ctx);
                     }
                     if let Some(value) = clause.value() {
-                        value.index(ctx);
+                        let value_typ = value.index(ctx);
+                        if typ.is_none() {
+                            typ = value_typ;
+                        }
                     }
                 }
-                None
+                Some(typ.unwrap_or(Type::Unknown))
             }
         }
     }
